@@ -48,6 +48,7 @@ def load_known():
 
 def run_property(prop, tier="quick", overrides=None, jobs=None, only=None, quiet=False):
     t0 = time.time()
+    os.environ["VERIF_TIER"] = tier       # sidecars may widen their enumerated shapes in the thorough tier (api.THOROUGH)
     contracts, lemmas, audits = driver.load_sidecar(prop)
     work = []
     for c in contracts:
@@ -69,6 +70,13 @@ def run_property(prop, tier="quick", overrides=None, jobs=None, only=None, quiet
         if only and only not in a["name"]:
             continue
         extra.append(driver.run_audit(prop, a, overrides))
+    from . import api as _api
+    for nt in list(_api.NATIVES):
+        if only and only not in nt["name"]:
+            continue
+        if nt["tier"] == "thorough" and tier != "thorough":
+            continue
+        extra.append(driver.run_native(prop, nt, overrides))
     for lm in lemmas:
         if only and only not in lm["name"]:
             continue
